@@ -2986,7 +2986,10 @@ class MemoryObjectStore(PackCapableObjectStore):
                     # ``add_thin_pack`` already validates via
                     # ``PackStreamCopier.verify``; do the equivalent here.
                     p.check()
-                    for obj in PackInflater.for_pack_data(p, self.get_raw):
+                    # Resolve every object before adding any, so that a pack
+                    # with an unresolvable delta leaves the store unchanged.
+                    objs = list(PackInflater.for_pack_data(p, self.get_raw))
+                    for obj in objs:
                         self.add_object(obj)
                 finally:
                     p.close()
